@@ -28,10 +28,10 @@ func loc(pos int, ap ...uint64) spec.Loc {
 }
 
 // NumCells is the size of the per-(doc,field) cell menu.
-const NumCells = 11
+const NumCells = 12
 
 // ReducedCells is the reduced menu used for larger N.
-var ReducedCells = []int{0, 1, 3, 5, 7}
+var ReducedCells = []int{0, 1, 3, 5, 7, 11}
 
 // cell returns the instances of field name for menu entry m.
 func cell(name string, m int, opt int) []spec.Field {
@@ -74,6 +74,10 @@ func cell(name string, m int, opt int) []spec.Field {
 			spec.Tok{Term: "x", Freq: 1, Locs: []spec.Loc{loc(1), loc(4)}},
 			spec.Tok{Term: "y", Freq: 3, Locs: []spec.Loc{loc(2)}},
 			spec.Tok{Term: "z", Freq: 1})}
+	case 11: // values at the 1/2/3-byte varint boundaries (freq<<1, norm, location fields)
+		return []spec.Field{mk("x", 128,
+			spec.Tok{Term: "x", Freq: 64, Locs: []spec.Loc{{Pos: 128, Start: 127, End: 16384, AP: []uint64{128, 16383}}, {Pos: 16384, Start: 129, End: 255}}},
+			spec.Tok{Term: "y", Freq: 8192})}
 	}
 	panic(fmt.Sprintf("bad cell %d", m))
 }
@@ -235,7 +239,7 @@ func CellBatches(tier string, emit func(BatchCase)) {
 		ProductOf(2*nf, menu2, func(v []int) {
 			modes := ChunkModesSmall
 			if tier == "quick" {
-				modes = []uint32{1, 2, 1025, 1026}
+				modes = []uint32{1, 2, 1026}
 			}
 			for _, mode := range modes {
 				emit(BatchCase{Fam: "cells", N: 2, Cells: v, Comp: comp, Opt: 0, Mode: mode})
@@ -243,7 +247,7 @@ func CellBatches(tier string, emit func(BatchCase)) {
 		})
 	}
 	// N = 3
-	menu3 := []int{0, 1, 3, 5, 7, 8, 10}
+	menu3 := []int{0, 1, 3, 5, 7, 8, 10, 11}
 	if tier == "quick" {
 		menu3 = ReducedCells
 	}
@@ -251,7 +255,7 @@ func CellBatches(tier string, emit func(BatchCase)) {
 		ProductOf(3*nf, menu3, func(v []int) {
 			modes := []uint32{1, 2, 3, 1025}
 			if tier == "quick" {
-				modes = []uint32{2, 1025}
+				modes = []uint32{2}
 			}
 			for _, mode := range modes {
 				emit(BatchCase{Fam: "cells", N: 3, Cells: v, Comp: comp, Opt: 7, Mode: mode})
